@@ -7,6 +7,7 @@ CONSTANTS
   DeepDepth = 1
   HierDepth = 3
   XDepth = 1
+  SelfDepth = 2
   Wide = FALSE
   EmitCases = FALSE
 INIT Init
